@@ -83,6 +83,7 @@ type Node struct {
 	PadTo   int
 	GlueIn  bool // in-path placeholders glued to an option: -i={i:x}
 	NoSpawn bool // Process.Spawn = false (a documented field the library ignores)
+	Head    int  // > 0: the command reads only the first Head bytes of each input and closes it (head -c)
 	TouchIn bool // the command re-writes its first input in place (same bytes, later mtime)
 	BgTail  bool // the command returns while a child of it still writes the rest of the first output
 	// TagArgs: "port.key" names of tags (scipipe qualifies a task's tags with the
@@ -190,6 +191,9 @@ func (w *WF) Describe() string {
 		}
 		if n.Prepend != "" {
 			fmt.Fprintf(&b, " prepend=%q", n.Prepend)
+		}
+		if n.Head > 0 {
+			fmt.Fprintf(&b, " reads-only-first=%d", n.Head)
 		}
 		if n.NoSpawn {
 			b.WriteString(" spawn=false")
